@@ -13,7 +13,7 @@ import (
 // Node is one node of the generated program tree (expression or statement). It is plain data; ast.go renders it
 // to Go source text deterministically.
 //
-// Expressions: lit var bin un call mcall index slice field len conv minmax append slit mlit stlit recover none
+// Expressions: lit var bin un call mcall index slice field len conv minmax append slit mlit stlit alit recover none
 // Statements:  define vardecl assign incdec tassign mret mapok if for3 forc forever range switch case break continue
 //
 //	return defer deferlit panic expr block delete label goto
@@ -50,6 +50,7 @@ type Global struct {
 type Func struct {
 	Name    string  `json:"name"`
 	Group   bool    `json:"group,omitempty"` // print adjacent named parameters / results of one type as "a, b int"
+	AsVar   bool    `json:"asvar,omitempty"` // declared as a package variable holding a function literal: var h0 = func(...) ... {...}
 	Recv    *Field  `json:"recv,omitempty"`
 	Params  []Field `json:"params,omitempty"`
 	Results []Field `json:"results,omitempty"`
@@ -193,10 +194,16 @@ func expr(n *Node) string {
 			parts = append(parts, kv.S+": "+expr(kv.A[0]))
 		}
 		return n.S + n.T + "{" + strings.Join(parts, ", ") + "}"
+	case "alit":
+		return n.T + "{" + exprList(n.A) + "}"
+	case "funclit":
+		return "func(p0 int) int { return " + expr(n.A[0]) + " }"
 	case "recover":
 		return "recover()"
 	case "deref":
 		return "*" + postfixOperand(n.A[0])
+	case "paren":
+		return "(" + expr(n.A[0]) + ")"
 	}
 	panic("c14 printer: unknown expression kind " + n.K)
 }
@@ -525,7 +532,11 @@ func (p *printer) fn(f *Func) {
 	case len(f.Results) > 0:
 		res = " (" + fieldListG(f.Results, f.Group) + ")"
 	}
-	p.line("func %s%s(%s)%s {", recv, f.Name, fieldListG(f.Params, f.Group), res)
+	if f.AsVar {
+		p.line("var %s = func(%s)%s {", f.Name, fieldListG(f.Params, f.Group), res)
+	} else {
+		p.line("func %s%s(%s)%s {", recv, f.Name, fieldListG(f.Params, f.Group), res)
+	}
 	p.block(f.Body)
 	p.line("}")
 	p.line("")
@@ -546,6 +557,12 @@ func (pr *Prog) Source(pkg string) string {
 		p.line("}")
 		p.line("")
 	}
+	for i := range pr.Funcs {
+		// (ahead of the other package variables: their initialisers may call it)
+		if pr.Funcs[i].AsVar {
+			p.fn(&pr.Funcs[i])
+		}
+	}
 	for _, g := range pr.Globals {
 		if g.Init != nil {
 			p.line("var %s %s = %s", g.Name, g.Type, expr(g.Init))
@@ -563,7 +580,9 @@ func (pr *Prog) Source(pkg string) string {
 		p.line("")
 	}
 	for i := range pr.Funcs {
-		p.fn(&pr.Funcs[i])
+		if !pr.Funcs[i].AsVar {
+			p.fn(&pr.Funcs[i])
+		}
 	}
 	return p.sb.String()
 }
